@@ -8,7 +8,12 @@ sys run <ents> <params> <vars> <ops> <queries> [<ignored> …]
 ents    = key,key,…                               the first one is the person entity
 params  = - | name=ord:val,ord:val;name=…         val = <token> | null
 vars    = - | classdef;classdef;…                 the base system's variables, added in order
-classdef= name:vt:default:entity:defperiod:end:setinput:formulas     "-" = not declared
+classdef= name:vt:default:entity:defperiod:end:setinput:formulas[:<raw metadata, ignored>:attrs]     "-" = not declared
+attrs   = - | key=tok,key=tok,…                   the other declared attributes (label, reference, documentation, unit,
+                                                  cerfa_field, calculate_output, is_period_size_independent, max_length)
+                                                  with the value Variable.__init__ makes of the declared one (tok = an
+                                                  opaque token, "-" = None); `bad=1`: a declared value that
+                                                  Variable.set refuses (wrong type, setter's check)
 formulas= - | ord>n,ord>n,…                       start date (ordinal) > function id, class order
 ops     = - | op|op|…
 op      = C!src | R!src!mods | M!tgt!mod | T!src!reforms!exts     src / tgt = index of a system (0 = base)
@@ -23,7 +28,8 @@ stage   = (ok|ERR):<snap>;<snap>;…                one snapshot per system aliv
                                                   snapshot is the one of the previous stage
 snap    = n=<names>/e=<key^bound^fresh^names-for-the-entity,…>/P=<k>/u=<prototype entities still unbound>
           /r=<index of base_tax_benefit_system | x>/p=<name@ord=val,…>/v=<var>+<var>+…
-var     = name(own,bl,via,vt,default,entity,defperiod,end,setinput,neutralized,formulas,at)
+var     = name(own,bl,via,vt,default,entity,defperiod,end,setinput,neutralized,formulas,at,input,label,attrs)
+          input = is_input_variable(); label = tok | - | N(tok) (neutralised); attrs = tok~tok~… (the 7 other attributes)
 ```
 `own` = smallest index of a system that resolves the name to the identical object, `bl` = the same
 for the object's `baseline_variable` (`-` none, `x` not the current entry of any system), `via` =
@@ -54,16 +60,23 @@ def parseFormulas? (s : String) : Option (List (Int × Nat)) :=
 
 def parseClassDef? (s : String) : Option ClassDef :=
   match s.splitOn ":" with
-  | [name, vt, dflt, ent, dp, e, si, fs] => mk name vt dflt ent dp e si fs
-  | [name, vt, dflt, ent, dp, e, si, fs, _meta] => mk name vt dflt ent dp e si fs   -- descriptive metadata: not modelled
+  | [name, vt, dflt, ent, dp, e, si, fs] => mk name vt dflt ent dp e si fs "-"
+  | [name, vt, dflt, ent, dp, e, si, fs, _meta] => mk name vt dflt ent dp e si fs "-"   -- raw metadata only
+  | [name, vt, dflt, ent, dp, e, si, fs, _meta, ats] => mk name vt dflt ent dp e si fs ats
   | _ => none
 where
-  mk (name vt dflt ent dp e si fs : String) : Option ClassDef := do
+  mk (name vt dflt ent dp e si fs ats : String) : Option ClassDef := do
     if name = "" then none
     let e ← parseOptInt? e
     let fs ← parseFormulas? fs
+    let kvs ← (if ats = "-" then some [] else allSome ((ats.splitOn ",").map fun kv =>
+      match kv.splitOn "=" with
+      | [k, v] => if k = "" ∨ v = "" then none else some (k, v)
+      | _ => none))
     pure { name := name, valueType := optTok vt, default := optTok dflt, entity := optTok ent,
-           defPeriod := optTok dp, endDate := e, setInput := optTok si, formulas := fs }
+           defPeriod := optTok dp, endDate := e, setInput := optTok si, formulas := fs,
+           attrs := (kvs.filter (fun kv => kv.1 ≠ "bad")).map (fun kv => (kv.1, optTok kv.2)),
+           invalid := kvs.any (fun kv => kv.1 = "bad") }
 
 def parseParams? (s : String) : Option ParamTree :=
   if s = "-" then some [] else
@@ -194,7 +207,8 @@ def showVar (st : State) (k : Nat) (sid : Oid) (s : SysObj) (qs : List Int) (nam
       let fs := if v.formulas.isEmpty then "-" else
         "^".intercalate (v.formulas.map fun p => s!"{p.1}>{showFml p.2}")
       let ats := "^".intercalate (showOptFml (v.formulas.head?.map (·.2)) :: qs.map fun d => showOptFml (getFormula vw d))
-      s!"{name}({own},{bl},{via},{v.valueType},{v.default},{v.entity},{v.defPeriod},{showOptInt v.endDate},{showOptStr v.setInput},{if v.isNeutralized then "T" else "F"},{fs},{ats})"
+      let attrs := "~".intercalate (metaKeys.map fun k => showOptStr (v.attr k))
+      s!"{name}({own},{bl},{via},{v.valueType},{v.default},{v.entity},{v.defPeriod},{showOptInt v.endDate},{showOptStr v.setInput},{if v.isNeutralized then "T" else "F"},{fs},{ats},{if vw.isInput then "T" else "F"},{showOptStr v.label},{attrs})"
 
 def showSnap (nproto : Nat) (st : State) (qs : List Int) (k : Nat) (sid : Oid) : String :=
   let h := st.heap
